@@ -108,6 +108,27 @@ func runLayout(r *Run, l *layout, trace bool, mutate string) (ok bool, outs []an
 			}
 		}
 	}
+	// a layer read from standard input: the model file system holds it under "<stdin>"
+	var stdin []byte
+	if e, has := fs["<stdin>"]; has {
+		ext := "yaml"
+		for _, in := range l.Inputs {
+			if strings.TrimSuffix(filepath.Base(in), filepath.Ext(in)) == "-" {
+				ext = fsx.Ext(in)
+			}
+		}
+		stdin, err = fsx.Encode(ext, e.Docs)
+		if err != nil {
+			return
+		}
+		fs2 := map[string]fsx.Entry{}
+		for p, x := range fs {
+			if p != "<stdin>" {
+				fs2[p] = x
+			}
+		}
+		fs = fs2
+	}
 	if err = fsx.Materialize(base, fs); err != nil {
 		return
 	}
@@ -122,7 +143,7 @@ func runLayout(r *Run, l *layout, trace bool, mutate string) (ok bool, outs []an
 		argv = append(argv, "-r", rel)
 	}
 	argv = append(argv, l.Inputs...)
-	res = fsx.Run(cwd, argv, nil, nil, 20*time.Second, trace)
+	res = fsx.Run(cwd, argv, nil, stdin, 20*time.Second, trace)
 	res.Steps = nil
 	for _, st := range parseSteps(base, res.Stderr) {
 		res.Steps = append(res.Steps, [2]string{st.Kind, st.ID})
@@ -412,6 +433,16 @@ func randomLayout(g *gen.G) *layout {
 		}
 	}
 	l.Skip = g.P(0.15)
+	if g.P(0.1) {
+		// a further layer from standard input
+		extra := map[string]any{}
+		if g.P(0.3) {
+			extra["$parent"] = g.Pick(all)
+		}
+		l.Fs["<stdin>"] = fsx.Entry{Kind: "file", Docs: []tv.T{layerDoc("stdin", extra)}}
+		l.Inputs = append(l.Inputs, "./-."+g.Pick([]string{"yaml", "json"}))
+		return l
+	}
 	if g.P(0.15) && drop == "" {
 		// the same layout once more in two directories: independent chains with equal file names
 		two := &layout{Fs: map[string]fsx.Entry{}, Root: "/", Skip: l.Skip}
